@@ -176,24 +176,62 @@ Qed.
 Definition esc1 (c : N) : ustr :=
   if c =? 92 then [92; 92] else if c =? 39 then [92; 39] else if c =? 8 then [92; 98]
   else if c =? 12 then [92; 102] else if c =? 10 then [92; 110] else if c =? 13 then [92; 114]
-  else if c =? 9 then [92; 116] else [c].
+  else if c =? 9 then [92; 116]
+  else if mem c g_ql_escape_bidi then 92 :: 117 :: hex_fixed 4 c else [c].
 
 Lemma ql_escape_string_flat : forall s, ql_escape_string s = flat_map esc1 s.
 Proof.
-  intros s. unfold ql_escape_string, g_ql_escape_table. cbn [fold_left fst snd].
+  intros s. unfold ql_escape_string, g_ql_escape_table, g_ql_escape_bidi. cbn [fold_left fst snd].
   rewrite (replace_char_as_flat_map 92 [92; 92] s).
   repeat rewrite replace_char_flat_map.
-  apply flat_map_ext. intros c. unfold esc1.
+  apply flat_map_ext. intros c. unfold esc1, g_ql_escape_bidi, mem. cbn [existsb].
   rewrite replace_char_single. destruct (c =? 92); [reflexivity|].
   rewrite replace_char_single. destruct (c =? 39); [reflexivity|].
   rewrite replace_char_single. destruct (c =? 8); [reflexivity|].
   rewrite replace_char_single. destruct (c =? 12); [reflexivity|].
   rewrite replace_char_single. destruct (c =? 10); [reflexivity|].
   rewrite replace_char_single. destruct (c =? 13); [reflexivity|].
-  rewrite replace_char_single. destruct (c =? 9); reflexivity.
+  rewrite replace_char_single. destruct (c =? 9); [reflexivity|].
+  rewrite replace_char_single. destruct (c =? 8234) eqn:E; [apply N.eqb_eq in E; subst; reflexivity|]. clear E.
+  rewrite replace_char_single. destruct (c =? 8235) eqn:E; [apply N.eqb_eq in E; subst; reflexivity|]. clear E.
+  rewrite replace_char_single. destruct (c =? 8236) eqn:E; [apply N.eqb_eq in E; subst; reflexivity|]. clear E.
+  rewrite replace_char_single. destruct (c =? 8237) eqn:E; [apply N.eqb_eq in E; subst; reflexivity|]. clear E.
+  rewrite replace_char_single. destruct (c =? 8238) eqn:E; [apply N.eqb_eq in E; subst; reflexivity|]. clear E.
+  rewrite replace_char_single. destruct (c =? 8294) eqn:E; [apply N.eqb_eq in E; subst; reflexivity|]. clear E.
+  rewrite replace_char_single. destruct (c =? 8295) eqn:E; [apply N.eqb_eq in E; subst; reflexivity|]. clear E.
+  rewrite replace_char_single. destruct (c =? 8296) eqn:E; [apply N.eqb_eq in E; subst; reflexivity|]. clear E.
+  rewrite replace_char_single. destruct (c =? 8297) eqn:E; [apply N.eqb_eq in E; subst; reflexivity|]. clear E.
+  reflexivity.
 Qed.
 
-Lemma esc1_chunk : forall c, prohibited c = false -> chunk_ok 39 (esc1 c).
+(* check_prohibited's set is NUL plus exactly the characters escape_string rewrites *)
+Lemma prohibited_bidi : forall c, prohibited c = (c =? 0) || mem c g_ql_escape_bidi.
+Proof.
+  intros c. unfold prohibited. rewrite <- orb_assoc. f_equal.
+  unfold g_ql_escape_bidi, mem, in_range. cbn [existsb].
+  destruct (N.lt_ge_cases c 8234); [leb_solve; eqb_solve; reflexivity|].
+  destruct (N.lt_ge_cases 8297 c); [leb_solve; eqb_solve; reflexivity|].
+  destruct (N.lt_ge_cases c 8239).
+  { assert (Hc : c = 8234 \/ c = 8235 \/ c = 8236 \/ c = 8237 \/ c = 8238) by lia.
+    repeat (destruct Hc as [->|Hc]; [reflexivity|]). subst; reflexivity. }
+  destruct (N.lt_ge_cases c 8294); [leb_solve; eqb_solve; reflexivity|].
+  assert (Hc : c = 8294 \/ c = 8295 \/ c = 8296 \/ c = 8297) by lia.
+  repeat (destruct Hc as [->|Hc]; [reflexivity|]). subst; reflexivity.
+Qed.
+
+Lemma hexdigits_plain39 : forall k c, Forall (plain 39) (hex_fixed k c).
+Proof.
+  intros. eapply Forall_impl; [|apply hex_fixed_digits].
+  intros a [H|H]; repeat split; try lia; apply prohibited_small; lia.
+Qed.
+
+Lemma bidi_range : forall c, mem c g_ql_escape_bidi = true -> 8234 <= c <= 8297.
+Proof.
+  intros c H. apply mem_true_iff in H. unfold g_ql_escape_bidi in H. cbn in H.
+  repeat (destruct H as [<-|H]; [lia|]). destruct H.
+Qed.
+
+Lemma esc1_chunk : forall c, c <> 0 -> chunk_ok 39 (esc1 c).
 Proof.
   intros c Hp. unfold esc1.
   destruct (c =? 92) eqn:E1; [apply ck_esc; [lia|constructor]|].
@@ -203,7 +241,10 @@ Proof.
   destruct (c =? 10); [apply ck_esc; [lia|constructor]|].
   destruct (c =? 13); [apply ck_esc; [lia|constructor]|].
   destruct (c =? 9); [apply ck_esc; [lia|constructor]|].
-  apply ck_plain. apply N.eqb_neq in E1, E2. repeat split; auto.
+  destruct (mem c g_ql_escape_bidi) eqn:Eb.
+  - apply ck_esc; [lia|]. apply hexdigits_plain39.
+  - apply ck_plain. apply N.eqb_neq in E1, E2. repeat split; auto.
+    rewrite prohibited_bidi, Eb. now rewrite (eqb_neq_false c 0).
 Qed.
 
 Lemma esc1_unq : forall c rest, unq U 0 (esc1 c ++ rest) = ocons c (unq U 0 rest).
@@ -216,17 +257,20 @@ Proof.
   destruct (c =? 10) eqn:E5; [apply N.eqb_eq in E5; subst; reflexivity|].
   destruct (c =? 13) eqn:E6; [apply N.eqb_eq in E6; subst; reflexivity|].
   destruct (c =? 9) eqn:E7; [apply N.eqb_eq in E7; subst; reflexivity|].
-  cbn [app]. apply unq_plain. now apply N.eqb_neq.
+  destruct (mem c g_ql_escape_bidi) eqn:Eb.
+  - apply bidi_range in Eb. cbn [app]. apply unq_hex4; [|lia]. apply valid_char_intro; lia.
+  - cbn [app]. apply unq_plain. now apply N.eqb_neq.
 Qed.
 
-Theorem p_ql_quote_literal : forall s k, no_prohibited s = true ->
+Theorem p_ql_quote_literal : forall s k, mem 0 s = false ->
   ql_lex1 U (ql_quote_literal s ++ k) = LexOk (TStr s) k.
 Proof.
   intros s k Hp. unfold ql_quote_literal, g_ql_lit_quote. rewrite ql_escape_string_flat.
   rewrite <- app_comm_cons, <- app_assoc. cbn [app].
   rewrite ql_lex1_quote by auto.
   apply lex_str_ok.
-  - apply scan_str_body; [lia|]. intros c Hc. apply esc1_chunk. eapply no_prohibited_in; eauto.
+  - apply scan_str_body; [lia|]. intros c Hc. apply esc1_chunk. apply mem_false_iff in Hp.
+    intro; subst; auto.
   - apply unq_body. intros; apply esc1_unq.
 Qed.
 
@@ -271,12 +315,115 @@ Proof.
   now apply scan_str_raw.
 Qed.
 
-(* ------------------------------------------------------------------ repr() *)
+(* ------------------------------------------------------------------ repr() + _REPR_ESCAPE_RE *)
 
 Definition repr_char_ok (c : N) : bool :=
-  negb (c =? 0) && valid_char c
-  && negb (py_printable U c && prohibited c)
-  && negb (in_range c 128 255 && negb (py_printable U c)).
+  negb (c =? 0) && valid_char c && negb (py_printable U c && prohibited c).
+
+(* repr1 after the substitution: the Latin-1 branch writes \u00HH *)
+Definition repr1' (q c : N) : ustr :=
+  if (c =? q) || (c =? 92) then [92; c]
+  else if c =? 9 then [92; 116]
+  else if c =? 10 then [92; 110]
+  else if c =? 13 then [92; 114]
+  else if (c <? 32) || (c =? 127) then 92 :: 120 :: hex_fixed 2 c
+  else if c <? 127 then [c]
+  else if py_printable U c then [c]
+  else if c <? 256 then 92 :: 117 :: 48 :: 48 :: hex_fixed 2 c
+  else if c <? 65536 then 92 :: 117 :: hex_fixed 4 c
+  else 92 :: 85 :: hex_fixed 8 c.
+
+Lemma repr_fix_plain : forall c rest, c <> 92 -> repr_fix (c :: rest) = c :: repr_fix rest.
+Proof. intros c rest H. cbn [repr_fix]. now rewrite (eqb_neq_false c 92). Qed.
+
+Lemma repr_fix_nobs : forall l rest, ~ In 92 l -> repr_fix (l ++ rest) = l ++ repr_fix rest.
+Proof.
+  induction l as [|c l IH]; intros rest H; [reflexivity|]. cbn [app].
+  rewrite repr_fix_plain by (intro; subst; apply H; left; auto).
+  rewrite IH; auto. intro; apply H; right; auto.
+Qed.
+
+Lemma hexdigits_nobs : forall k c, ~ In 92 (hex_fixed k c).
+Proof.
+  intros k c H. pose proof (hex_fixed_digits k c) as F. rewrite Forall_forall in F.
+  destruct (F _ H); lia.
+Qed.
+
+Lemma repr_fix_esc : forall d rest, d <> 120 -> repr_fix (92 :: d :: rest) = 92 :: d :: repr_fix rest.
+Proof. intros d rest H. cbn [repr_fix N.eqb Pos.eqb]. now rewrite (eqb_neq_false d 120). Qed.
+
+Lemma hexchar_hi : forall d, d < 16 ->
+  is_hex_lc (hexchar d) = true /\ is_hex_hi (hexchar d) = (8 <=? d).
+Proof.
+  intros d H. assert (Hc : d = 0 \/ d = 1 \/ d = 2 \/ d = 3 \/ d = 4 \/ d = 5 \/ d = 6 \/ d = 7 \/ d = 8 \/ d = 9
+    \/ d = 10 \/ d = 11 \/ d = 12 \/ d = 13 \/ d = 14 \/ d = 15) by lia.
+  repeat (destruct Hc as [->|Hc]; [split; reflexivity|]). subst; split; reflexivity.
+Qed.
+
+Lemma repr_fix_x_unfold : forall a b rest,
+  repr_fix (92 :: 120 :: a :: b :: rest) =
+  if is_hex_hi a && is_hex_lc b then 92 :: 117 :: 48 :: 48 :: a :: b :: repr_fix rest
+  else 92 :: 120 :: repr_fix (a :: b :: rest).
+Proof. reflexivity. Qed.
+
+Lemma repr_fix_x : forall c rest, c < 256 ->
+  repr_fix (92 :: 120 :: hex_fixed 2 c ++ rest) =
+  (if 128 <=? c then 92 :: 117 :: 48 :: 48 :: hex_fixed 2 c else 92 :: 120 :: hex_fixed 2 c) ++ repr_fix rest.
+Proof.
+  intros c rest H. cbn [hex_fixed app]. rewrite repr_fix_x_unfold.
+  assert (H1 : (c / 16) mod 16 < 16) by (apply N.mod_lt; lia).
+  assert (H2 : c mod 16 < 16) by (apply N.mod_lt; lia).
+  destruct (hexchar_hi _ H1) as [_ Ha]. destruct (hexchar_hi _ H2) as [Hb _].
+  rewrite Ha, Hb.
+  assert (Hd : c / 16 < 16) by (apply N.div_lt_upper_bound; lia).
+  rewrite (N.mod_small (c / 16) 16) by auto.
+  destruct (128 <=? c) eqn:E.
+  - apply N.leb_le in E. replace (8 <=? c / 16) with true
+      by (symmetry; apply N.leb_le; apply N.div_le_lower_bound; lia). reflexivity.
+  - apply N.leb_gt in E. replace (8 <=? c / 16) with false
+      by (symmetry; apply N.leb_gt; apply N.div_lt_upper_bound; lia).
+    cbn [andb]. pose proof (hexchar_cases ((c / 16)) Hd). pose proof (hexchar_cases (c mod 16) H2).
+    rewrite !repr_fix_plain by lia. reflexivity.
+Qed.
+
+Lemma repr_fix_chunk : forall q c rest, q = 34 \/ q = 39 -> c < 1114112 ->
+  repr_fix (repr1 U q c ++ rest) = repr1' q c ++ repr_fix rest.
+Proof.
+  intros q c rest Hq Hc. unfold repr1, repr1'.
+  destruct ((c =? q) || (c =? 92)) eqn:E1.
+  { cbn [app]. apply repr_fix_esc. apply orb_true_iff in E1 as [E|E]; apply N.eqb_eq in E; subst; destruct Hq; lia. }
+  apply orb_false_iff in E1 as [Eq E92]. apply N.eqb_neq in Eq, E92.
+  destruct (c =? 9); [reflexivity|]. destruct (c =? 10); [reflexivity|]. destruct (c =? 13); [reflexivity|].
+  destruct ((c <? 32) || (c =? 127)) eqn:Ec.
+  { assert (c <= 127) by (apply orb_true_iff in Ec as [E|E]; [apply N.ltb_lt in E; lia | apply N.eqb_eq in E; lia]).
+    cbn [app]. rewrite repr_fix_x by lia. replace (128 <=? c) with false by (symmetry; apply N.leb_gt; lia).
+    reflexivity. }
+  destruct (c <? 127) eqn:E127; [cbn [app]; now apply repr_fix_plain|].
+  destruct (py_printable U c); [cbn [app]; now apply repr_fix_plain|].
+  destruct (c <? 256) eqn:E256.
+  { apply N.ltb_lt in E256. apply orb_false_iff in Ec as [Ec1 Ec2]. apply N.ltb_ge in Ec1.
+    cbn [app]. rewrite repr_fix_x by lia.
+    destruct (128 <=? c) eqn:E128; [reflexivity|].
+    (* 32 <= c < 128 and not < 127 and <> 127: impossible *)
+    exfalso. apply N.leb_gt in E128. apply N.eqb_neq in Ec2. apply N.ltb_ge in E127. lia. }
+  destruct (c <? 65536).
+  - cbn [app]. rewrite repr_fix_esc by lia. now rewrite repr_fix_nobs by apply hexdigits_nobs.
+  - cbn [app]. rewrite repr_fix_esc by lia. now rewrite repr_fix_nobs by apply hexdigits_nobs.
+Qed.
+
+Lemma repr_fix_repr : forall s, Forall (fun c => c < 1114112) s ->
+  repr_fix (py_repr U s) =
+  let q := if mem 39 s && negb (mem 34 s) then 34 else 39 in q :: flat_map (repr1' q) s ++ [q].
+Proof.
+  intros s Hs. unfold py_repr.
+  set (q := if mem 39 s && negb (mem 34 s) then 34 else 39).
+  assert (Hq : q = 34 \/ q = 39) by (unfold q; destruct (mem 39 s && negb (mem 34 s)); auto).
+  cbv zeta. rewrite repr_fix_plain by (destruct Hq; lia). f_equal.
+  clearbody q. induction s as [|c s IH].
+  - cbn [flat_map app]. rewrite repr_fix_plain by (destruct Hq; lia). reflexivity.
+  - inversion Hs; subst. cbn [flat_map]. rewrite <- !app_assoc. rewrite repr_fix_chunk by auto.
+    now rewrite IH.
+Qed.
 
 Lemma hexdigit_plain : forall q c, q = 34 \/ q = 39 -> is_hexdigit c -> plain q c.
 Proof.
@@ -291,14 +438,20 @@ Proof.
   intros. eapply Forall_impl; [|apply hex_fixed_digits]. intros; now apply hexdigit_plain.
 Qed.
 
-Lemma repr1_ok : forall q c, q = 34 \/ q = 39 -> repr_char_ok c = true ->
-  chunk_ok q (repr1 U q c) /\ forall rest, unq U 0 (repr1 U q c ++ rest) = ocons c (unq U 0 rest).
+Lemma hex4_latin1 : forall c, c < 256 -> hex_fixed 4 c = 48 :: 48 :: hex_fixed 2 c.
+Proof.
+  intros c H. cbn [hex_fixed app].
+  assert (c / 16 / 16 = 0) by (rewrite N.div_div by lia; apply N.div_small; lia).
+  rewrite H0. reflexivity.
+Qed.
+
+Lemma repr1'_ok : forall q c, q = 34 \/ q = 39 -> repr_char_ok c = true ->
+  chunk_ok q (repr1' q c) /\ forall rest, unq U 0 (repr1' q c ++ rest) = ocons c (unq U 0 rest).
 Proof.
   intros q c Hq Hok. unfold repr_char_ok in Hok.
-  apply andb_true_iff in Hok as [Hok H4]. apply andb_true_iff in Hok as [Hok H3].
-  apply andb_true_iff in Hok as [H1 H2].
-  apply negb_true_iff in H1, H3, H4. apply N.eqb_neq in H1.
-  unfold repr1.
+  apply andb_true_iff in Hok as [Hok H3]. apply andb_true_iff in Hok as [H1 H2].
+  apply negb_true_iff in H1, H3. apply N.eqb_neq in H1.
+  unfold repr1'.
   destruct ((c =? q) || (c =? 92)) eqn:E1.
   { split.
     - apply ck_esc; [|constructor]. apply orb_true_iff in E1 as [E|E]; apply N.eqb_eq in E; subst; destruct Hq; lia.
@@ -323,11 +476,10 @@ Proof.
   { cbn [andb] in H3. split.
     - apply ck_plain. repeat split; auto.
     - intros rest. cbn [app]. now apply unq_plain. }
-  cbn [negb andb] in H4. rewrite andb_true_r in H4.
   destruct (c <? 256) eqn:E256.
-  { exfalso. apply N.ltb_lt in E256. unfold in_range in H4.
-    replace (128 <=? c) with true in H4 by (symmetry; apply N.leb_le; lia).
-    replace (c <=? 255) with true in H4 by (symmetry; apply N.leb_le; lia). discriminate. }
+  { apply N.ltb_lt in E256. rewrite <- hex4_latin1 by auto. split.
+    - apply ck_esc; [lia|]. now apply hexdigits_plain.
+    - intros rest. cbn [app]. apply unq_hex4; auto. lia. }
   destruct (c <? 65536) eqn:E64k.
   { apply N.ltb_lt in E64k. split.
     - apply ck_esc; [lia|]. now apply hexdigits_plain.
@@ -337,18 +489,25 @@ Proof.
   - intros rest. cbn [app]. now apply unq_hex8.
 Qed.
 
-Theorem p_py_repr : forall s k, forallb repr_char_ok s = true ->
-  ql_lex1 U (py_repr U s ++ k) = LexOk (TStr s) k.
+Lemma repr_char_ok_scalar : forall c, repr_char_ok c = true -> c < 1114112.
 Proof.
-  intros s k H. unfold py_repr.
+  intros c H. unfold repr_char_ok, valid_char in H.
+  apply andb_true_iff in H as [H _]. apply andb_true_iff in H as [_ H].
+  apply andb_true_iff in H as [H _]. apply andb_true_iff in H as [_ H]. now apply N.ltb_lt.
+Qed.
+
+Theorem p_py_repr : forall s k, forallb repr_char_ok s = true ->
+  ql_lex1 U (repr_fix (py_repr U s) ++ k) = LexOk (TStr s) k.
+Proof.
+  intros s k H. rewrite forallb_forall in H.
+  rewrite repr_fix_repr by (apply Forall_forall; intros; apply repr_char_ok_scalar; auto).
   set (q := if mem 39 s && negb (mem 34 s) then 34 else 39).
   assert (Hq : q = 34 \/ q = 39) by (unfold q; destruct (mem 39 s && negb (mem 34 s)); auto).
-  rewrite <- app_comm_cons, <- app_assoc. cbn [app].
+  cbv zeta. rewrite <- app_comm_cons, <- app_assoc. cbn [app].
   rewrite ql_lex1_quote by auto.
-  rewrite forallb_forall in H.
   apply lex_str_ok.
-  - apply scan_str_body; [destruct Hq; lia|]. intros c Hc. now apply repr1_ok; auto.
-  - apply unq_body. intros c rest Hc. now apply repr1_ok; auto.
+  - apply scan_str_body; [destruct Hq; lia|]. intros c Hc. now apply repr1'_ok; auto.
+  - apply unq_body. intros c rest Hc. now apply repr1'_ok; auto.
 Qed.
 
 End Str.
